@@ -299,6 +299,12 @@ func genXport(r *rng, seed uint64, focus, arm string) *plan.Plan {
 					d2 = r.i64(6_050_000, 7_000_000) // later than the TCP leg's 6 s I/O limit
 				}
 				t.Acts = append(t.Acts, plan.UpAction{Kind: k2, DelayUs: d2})
+				if r.p(0.2) {
+					// what only the TCP leg can carry: an answer of many KiB
+					// whose late names are compressed against each other
+					t.Ans.Shape, t.Ans.Compress = "late", r.rng(1, 3)
+					t.Ans.PadTo = []int{8300, 9000, 12500, 16000, 20000, 40000}[r.intn(6)]
+				}
 			}
 		case "C18x":
 			if kind == "udp" && r.p(0.5) {
